@@ -57,8 +57,8 @@ class C09Plan(Plan):
         if index % self.LONG_EVERY == 61:
             base = gen.BIG_BASE                  # wide, deep, many-variable worlds
         scn = gen.gen_scenario(rng, base)
-        if base is self.LONG_BASE and index % (2 * self.LONG_EVERY) == 29:
-            gen.hammer(rng, scn)
+        if base is self.LONG_BASE and index % (4 * self.LONG_EVERY) != 29:
+            gen.hammer(rng, scn)                 # three long histories in four contain hot loops
         if index % self.SESSION_EVERY == 53:
             # a long session: SESSION_LEN unrelated scenarios executed first in the same pristine process,
             # then this one, whose every step is compared with a reference from a process that ran nothing
